@@ -60,6 +60,100 @@ fn try_new_from_perf<'a>(a: PerformanceAttributes) -> Option<Performance<'a>> {
     })
 }
 
+/// The generic and the mode-specific builder fed with the *mode-specific* attribute structs
+/// (`IntoPerformance` / `IntoModePerformance` impls, `From` impls).
+fn struct_routes<'a>(d: &DifficultyAttributes, p: &PerformanceAttributes) -> Vec<(&'static str, Performance<'a>)> {
+    use rosu_pp::{catch::CatchPerformance, mania::ManiaPerformance, osu::OsuPerformance, taiko::TaikoPerformance};
+    macro_rules! routes {
+        ($variant:ident, $perf:ident, $dty:ty, $d:expr, $p:expr) => {
+            vec![
+                ("Performance::new(<Mode>DifficultyAttributes)", Performance::new($d.clone())),
+                ("Performance::from(<Mode>DifficultyAttributes)", Performance::from($d.clone())),
+                ("Performance::new(<Mode>PerformanceAttributes)", Performance::new($p.clone())),
+                ("<Mode>Performance::new(<Mode>PerformanceAttributes)", Performance::$variant($perf::new($p.clone()))),
+                ("<Mode>Performance::from(<Mode>DifficultyAttributes)", Performance::$variant($perf::from($d.clone()))),
+                ("<Mode>Performance::from(<Mode>PerformanceAttributes)", Performance::$variant($perf::from($p.clone()))),
+                ("<Mode>DifficultyAttributes::from(<Mode>PerformanceAttributes)", Performance::new(<$dty>::from($p.clone()))),
+            ]
+        };
+    }
+    match (d, p) {
+        (DifficultyAttributes::Osu(d), PerformanceAttributes::Osu(p)) => routes!(Osu, OsuPerformance, rosu_pp::osu::OsuDifficultyAttributes, d, p),
+        (DifficultyAttributes::Taiko(d), PerformanceAttributes::Taiko(p)) => routes!(Taiko, TaikoPerformance, rosu_pp::taiko::TaikoDifficultyAttributes, d, p),
+        (DifficultyAttributes::Catch(d), PerformanceAttributes::Catch(p)) => routes!(Catch, CatchPerformance, rosu_pp::catch::CatchDifficultyAttributes, d, p),
+        (DifficultyAttributes::Mania(d), PerformanceAttributes::Mania(p)) => routes!(Mania, ManiaPerformance, rosu_pp::mania::ManiaDifficultyAttributes, d, p),
+        _ => Vec::new(),
+    }
+}
+
+/// The accessor methods of the attribute types agree with the fields they stand for.
+fn accessors(d: &DifficultyAttributes, p: &PerformanceAttributes) -> Result<(), String> {
+    let eqf = |name: &str, a: f64, b: f64| if a.to_bits() == b.to_bits() || (a.is_nan() && b.is_nan()) { Ok(()) } else { Err(format!("accessor {name}: {a} vs field {b}")) };
+    let equ = |name: &str, a: u32, b: u32| if a == b { Ok(()) } else { Err(format!("accessor {name}: {a} vs field {b}")) };
+    match (d, p) {
+        (DifficultyAttributes::Osu(da), PerformanceAttributes::Osu(pa)) => {
+            eqf("PerformanceAttributes::pp", p.pp(), pa.pp)?;
+            eqf("OsuPerformanceAttributes::pp", pa.pp(), pa.pp)?;
+            eqf("PerformanceAttributes::stars", p.stars(), pa.difficulty.stars)?;
+            eqf("OsuPerformanceAttributes::stars", pa.stars(), pa.difficulty.stars)?;
+            eqf("DifficultyAttributes::stars", d.stars(), da.stars)?;
+            equ("PerformanceAttributes::max_combo", p.max_combo(), pa.difficulty.max_combo)?;
+            equ("OsuPerformanceAttributes::max_combo", pa.max_combo(), pa.difficulty.max_combo)?;
+            equ("DifficultyAttributes::max_combo", d.max_combo(), da.max_combo)?;
+            equ("OsuDifficultyAttributes::max_combo", da.max_combo(), da.max_combo)?;
+            equ("OsuPerformanceAttributes::n_objects", pa.n_objects(), pa.difficulty.n_circles + pa.difficulty.n_sliders + pa.difficulty.n_spinners)?;
+            equ("OsuDifficultyAttributes::n_objects", da.n_objects(), da.n_circles + da.n_sliders + da.n_spinners)?;
+        }
+        (DifficultyAttributes::Taiko(da), PerformanceAttributes::Taiko(pa)) => {
+            eqf("PerformanceAttributes::pp", p.pp(), pa.pp)?;
+            eqf("TaikoPerformanceAttributes::pp", pa.pp(), pa.pp)?;
+            eqf("PerformanceAttributes::stars", p.stars(), pa.difficulty.stars)?;
+            eqf("TaikoPerformanceAttributes::stars", pa.stars(), pa.difficulty.stars)?;
+            eqf("DifficultyAttributes::stars", d.stars(), da.stars)?;
+            equ("PerformanceAttributes::max_combo", p.max_combo(), pa.difficulty.max_combo)?;
+            equ("TaikoPerformanceAttributes::max_combo", pa.max_combo(), pa.difficulty.max_combo)?;
+            equ("DifficultyAttributes::max_combo", d.max_combo(), da.max_combo)?;
+            equ("TaikoDifficultyAttributes::max_combo", da.max_combo(), da.max_combo)?;
+            if pa.is_convert() != pa.difficulty.is_convert || da.is_convert() != da.is_convert {
+                return Err("taiko is_convert() accessor differs from the field".into());
+            }
+        }
+        (DifficultyAttributes::Catch(da), PerformanceAttributes::Catch(pa)) => {
+            eqf("PerformanceAttributes::pp", p.pp(), pa.pp)?;
+            eqf("CatchPerformanceAttributes::pp", pa.pp(), pa.pp)?;
+            eqf("PerformanceAttributes::stars", p.stars(), pa.difficulty.stars)?;
+            eqf("CatchPerformanceAttributes::stars", pa.stars(), pa.difficulty.stars)?;
+            eqf("DifficultyAttributes::stars", d.stars(), da.stars)?;
+            let combo = da.n_fruits + da.n_droplets;
+            equ("CatchDifficultyAttributes::max_combo", da.max_combo(), combo)?;
+            equ("DifficultyAttributes::max_combo", d.max_combo(), combo)?;
+            equ("PerformanceAttributes::max_combo", p.max_combo(), pa.difficulty.n_fruits + pa.difficulty.n_droplets)?;
+            equ("CatchPerformanceAttributes::max_combo", pa.max_combo(), pa.difficulty.n_fruits + pa.difficulty.n_droplets)?;
+            if pa.is_convert() != pa.difficulty.is_convert || da.is_convert() != da.is_convert {
+                return Err("catch is_convert() accessor differs from the field".into());
+            }
+        }
+        (DifficultyAttributes::Mania(da), PerformanceAttributes::Mania(pa)) => {
+            eqf("PerformanceAttributes::pp", p.pp(), pa.pp)?;
+            eqf("ManiaPerformanceAttributes::pp", pa.pp(), pa.pp)?;
+            eqf("PerformanceAttributes::stars", p.stars(), pa.difficulty.stars)?;
+            eqf("ManiaPerformanceAttributes::stars", pa.stars(), pa.difficulty.stars)?;
+            eqf("DifficultyAttributes::stars", d.stars(), da.stars)?;
+            equ("PerformanceAttributes::max_combo", p.max_combo(), pa.difficulty.max_combo)?;
+            equ("ManiaPerformanceAttributes::max_combo", pa.max_combo(), pa.difficulty.max_combo)?;
+            equ("DifficultyAttributes::max_combo", d.max_combo(), da.max_combo)?;
+            equ("ManiaDifficultyAttributes::max_combo", da.max_combo(), da.max_combo)?;
+            equ("ManiaPerformanceAttributes::n_objects", pa.n_objects(), pa.difficulty.n_objects)?;
+            equ("ManiaDifficultyAttributes::n_objects", da.n_objects(), da.n_objects)?;
+            if pa.is_convert() != pa.difficulty.is_convert || da.is_convert() != da.is_convert {
+                return Err("mania is_convert() accessor differs from the field".into());
+            }
+        }
+        _ => return Err("difficulty and performance attributes are of different modes".into()),
+    }
+    Ok(())
+}
+
 fn case(t: &mut Tape, info: &mut CaseInfo) -> Result<(), String> {
     // a third of the cases draws settings from the wide domain (overrides up to +-20 and beyond, clock
     // rates 0.01..100): the property quantifies over all Difficulty settings
@@ -96,11 +190,14 @@ fn case(t: &mut Tape, info: &mut CaseInfo) -> Result<(), String> {
         ("<Mode>PerformanceAttributes::performance()", mode_specific_from_perf(r_map.clone())),
         ("<Mode>Performance::try_new(PerformanceAttributes)", try_new_from_perf(r_map.clone()).ok_or("try_new returned None for its own mode")?),
     ];
-    for (name, p) in entries {
+    for (name, p) in entries.into_iter().chain(struct_routes(&a, &r_map)) {
         let r = run(p);
         info.comparisons += 1;
         same(&format!("{name} vs map path"), &r, &r_map)?;
     }
+    accessors(&a, &r_map)?;
+    same("DifficultyAttributes::from(PerformanceAttributes) vs embedded difficulty", &DifficultyAttributes::from(r_map.clone()), &a)?;
+    info.comparisons += 2;
     // the same settings supplied through the individual Performance setters (generated order, mods not
     // necessarily first), on the map path and on the attribute path
     let insp = c.d.clone().inspect();
@@ -166,7 +263,7 @@ pub fn property() -> Property {
         id: "C04",
         subchecks: vec![SubCheck {
             name: "attrs-path-vs-map-path",
-            rule: "G-MAP (all modes + converts, <=50 objects) x G-DIFF incl. passed_objects (0..N+3, u32::MAX) x score builder spec (each of accuracy/combo/misses/every hit-result setter independently absent or 0..N+3, occasionally >>N, both priorities). Oracle: result of the mode-specific builder on the map == result from 12 other entry points (generic Performance::new on the explicitly converted map by ref/value, map.performance(), Performance::new/from(DifficultyAttributes), attrs.performance(), mode-specific attrs.performance()/Performance::new(attrs), the same for PerformanceAttributes incl. try_new) with the same Difficulty and score setters applied, plus the same settings supplied through the individual Performance setters in a generated order on both the map and the attribute path; for osu! sources the score set on the osu! builder before try_mode / mode_or_ignore(target) vs the attribute path; embedded difficulty == one-shot difficulty. Non-trivial: score spec non-default, pp>0, settings non-default.",
+            rule: "G-MAP (all modes + converts, <=50 objects) x G-DIFF incl. passed_objects (0..N+3, u32::MAX) x score builder spec (each of accuracy/combo/misses/every hit-result setter independently absent or 0..N+3, occasionally >>N, both priorities). Oracle: result of the mode-specific builder on the map == result from 12 other entry points (generic Performance::new on the explicitly converted map by ref/value, map.performance(), Performance::new/from(DifficultyAttributes), attrs.performance(), mode-specific attrs.performance()/Performance::new(attrs), the same for PerformanceAttributes incl. try_new; the generic and mode-specific new/from fed with the mode-specific attribute structs; <Mode>DifficultyAttributes::from(<Mode>PerformanceAttributes)); accessor methods (pp, stars, max_combo, n_objects, is_convert) agree with the fields with the same Difficulty and score setters applied, plus the same settings supplied through the individual Performance setters in a generated order on both the map and the attribute path; for osu! sources the score set on the osu! builder before try_mode / mode_or_ignore(target) vs the attribute path; embedded difficulty == one-shot difficulty. Non-trivial: score spec non-default, pp>0, settings non-default.",
             quick: 40_000,
             thorough: 200_000,
             tape_len: 1500,
